@@ -14,16 +14,23 @@ HERE = os.path.dirname(os.path.dirname(os.path.abspath(__file__)))
 
 
 def main():
-    args = [a for a in sys.argv[1:] if not a.startswith('--')]
+    args = [a for a in sys.argv[1:] if not a.startswith('--') and a not in ('thorough', 'quick')]
     tier = 'thorough' if '--tier' in sys.argv and 'thorough' in sys.argv else 'quick'
     flt = args[0] if args else ''
     res = {}
-    for d in sorted(glob.glob(os.path.join(HERE, 'seeded', flt + '*'))):
+    base = os.path.join(HERE, 'seeded', flt + '*')
+    for a in sys.argv[1:]:
+        if a.startswith('--dir='):
+            base = os.path.join(a[6:], '*')     # pre-screen deliverables of a sub-agent that are not kept yet: --dir=/tmp/seed2/C07/_seed
+    for d in sorted(glob.glob(base)):
         pf = os.path.join(d, 'patch.diff')
         if not os.path.exists(pf):
             continue
-        meta = json.load(open(os.path.join(d, 'meta.json')))
-        prop = meta['property']
+        try:
+            meta = json.load(open(os.path.join(d, 'meta.json')))
+        except Exception:
+            meta = {}
+        prop = meta.get('property') or [x for x in d.split('/') if len(x) == 3 and x[0] == 'C' and x[1:].isdigit()][-1]
         st = subprocess.run(['git', '-C', '/repo', 'status', '--porcelain', '--untracked-files=no'], stdout=subprocess.PIPE, text=True).stdout.strip()
         if st:
             print('refusing: /repo has local changes:\n' + st)
@@ -37,7 +44,7 @@ def main():
                 lines = [l.strip() for l in r.stdout.splitlines() if l.startswith('  ' + p)]
                 verdict = {0: 'MISSED', 1: 'CAUGHT', 2: 'BROKEN'}.get(r.returncode, 'rc=%d' % r.returncode)
                 if p == prop or r.returncode != 0:
-                    print('%-7s %-28s %s %s' % (verdict, os.path.basename(d), p, (lines[0][:170] if lines else r.stdout.strip().splitlines()[-1][:170])))
+                    print('%-7s %-28s %s %s' % (verdict, (prop + '/' if '--dir=' in ' '.join(sys.argv) else '') + os.path.basename(d), p, (lines[0][:170] if lines else r.stdout.strip().splitlines()[-1][:170])))
                 if p == prop:
                     res[os.path.basename(d)] = verdict
         finally:
